@@ -238,6 +238,14 @@ impl TryFrom<OpenFile> for Stdio {
         // fail (e.g. under descriptor exhaustion), so the conversion is fallible and the error is
         // surfaced to the caller rather than silently degrading the child's streams.
         match open_file {
+            // N.B. `inherit()` would hand the child the shell's descriptor for the *slot being
+            // filled* (e.g. standard output for `cmd >&2`) rather than the one this open file
+            // stands for, so give it a duplicate of the right one.
+            #[cfg(unix)]
+            OpenFile::Stdin(_) | OpenFile::Stdout(_) | OpenFile::Stderr(_) => {
+                Ok(open_file.try_clone_to_owned()?.into())
+            }
+            #[cfg(not(unix))]
             OpenFile::Stdin(_) | OpenFile::Stdout(_) | OpenFile::Stderr(_) => Ok(Self::inherit()),
             OpenFile::File(f) => Ok(f.try_clone()?.into()),
             OpenFile::PipeReader(r) => Ok(r.try_clone()?.into()),
